@@ -57,6 +57,10 @@ class SimDevice:
         self.unlock_pins = []            # PINs presented with an unlock command
         self.newpin_offered = []         # PINs presented with a change command
         self.sgx_onboard = None
+        # --- attestation (UI: ledger/ui attestation.c ; signer: powhsm attestation.c)
+        self.ui_att = {"app_hash": [0xAA] * 32, "pages": [[0x48, 0x53]], "signature": [0x30, 0x01], "ud": None}
+        self.pw_att = {"app_hash": [0xBB] * 32, "msg_pages": [[0x50]], "env_pages": [[0x50]], "signature": [0x30, 0x02],
+                       "legacy": False, "ud": None}
         self.auth = None
         self.auth_threshold = 1          # number of valid signatures after which the signer is authorized (None: never)
         self.seed = {}
@@ -170,6 +174,23 @@ class SimDevice:
         if cmd == 0xA0:   # SGX_ONBOARD: 0 | seed(32) | pin
             self.sgx_onboard = (data[1:33], data[33:])
             return resp([CLA, 0xA0, 1])
+        if cmd == 0x50:   # UI attestation
+            op = data[0]
+            a = self.ui_att
+            if op == 0x04:
+                return resp([CLA, 0x50, 0x04] + list(a["app_hash"]))
+            if op == 0x01:
+                a["ud"] = data[1:]
+                return resp([CLA, 0x50, 0x01])
+            if op == 0x02:
+                page = data[1]
+                if page >= len(a["pages"]):
+                    raise ProtocolViolation("ui attestation: page out of range")
+                more = 1 if page + 1 < len(a["pages"]) else 0
+                return resp([CLA, 0x50, 0x02, more] + list(a["pages"][page]))
+            if op == 0x03:
+                return resp([CLA, 0x50, 0x03] + list(a["signature"]))
+            raise ProtocolViolation("ui attestation: bad op")
         if cmd == 0x51:   # SIGNER_AUTH
             op = data[0]
             if op == 0x01:
@@ -220,6 +241,26 @@ class SimDevice:
             return resp([CLA, 0x21, 0x02])
         if cmd == 0x60:
             return self.handle_heartbeat(data)
+        if cmd == 0x50:   # powHSM attestation
+            op = data[0]
+            a = self.pw_att
+            if op == 0x01:
+                a["ud"] = data[1:]
+                return resp([CLA, 0x50, 0x01] + list(a["signature"]))
+            if op in (0x02, 0x04):
+                pages = a["msg_pages"] if op == 0x02 else a["env_pages"]
+                page = data[1]
+                if page >= len(pages):
+                    raise ProtocolViolation("attestation: page out of range")
+                if a["legacy"] and op == 0x02:
+                    return resp([CLA, 0x50, 0x02] + list(pages[page]))      # legacy: no 'more' byte, single answer
+                if a["legacy"]:
+                    raise ProtocolViolation("legacy signer has no envelope operation")
+                more = 1 if page + 1 < len(pages) else 0
+                return resp([CLA, 0x50, op, more] + list(pages[page]))
+            if op == 0x03:
+                return resp([CLA, 0x50, 0x03] + list(a["app_hash"]))
+            raise ProtocolViolation("attestation: bad op")
         if cmd == 0x02:
             return self.handle_sign(data)
         if cmd == 0x10:
